@@ -182,6 +182,8 @@ class Interp:
         if k in ('float', 'int', 'uint', 'bool'):
             return sym(name)
         if k == 'array':
+            if ty['len'] is None:
+                raise Unsupported('array of generic length cannot be materialised')
             return Arr(tuple(self.materialize(ty['ty'], '%s[%d]' % (name, i), state) for i in range(ty['len'])))
         if k == 'tuple':
             return Tup(tuple(self.materialize(t, '%s.%d' % (name, i), state) for i, t in enumerate(ty['tys'])))
@@ -327,6 +329,48 @@ class Interp:
         return SeqUpd(seq, idx, val)
 
     # ------------------------------------------------------------ integer helpers
+    def _lin(self, t, sign, acc):
+        """accumulate the linear form of an integer term: acc = {atom: coeff}, acc[None] = constant"""
+        h = t[0]
+        if h == 'ic':
+            acc[None] = acc.get(None, 0) + sign * t[1]
+        elif h == 'i+':
+            self._lin(t[1], sign, acc)
+            self._lin(t[2], sign, acc)
+        elif h == 'i-':
+            self._lin(t[1], sign, acc)
+            self._lin(t[2], -sign, acc)
+        else:
+            acc[t] = acc.get(t, 0) + sign
+
+    def _canon_lin(self, a, b, sign):
+        """canonical term for a ± b when the result is a short ±1-linear form: positive atoms (sorted), then the
+        negative ones (sorted), the constant last (so `len − (len − t)` is `t`, `(n−1)−1` is `n−2`)"""
+        acc = {}
+        self._lin(a, 1, acc)
+        self._lin(b, sign, acc)
+        const = acc.pop(None, 0)
+        items = [(k, v) for k, v in acc.items() if v != 0]
+        if len(items) > 6 or any(abs(v) != 1 for _, v in items):
+            return None
+        pos = sorted([k for k, v in items if v == 1], key=repr)
+        neg = sorted([k for k, v in items if v == -1], key=repr)
+        if not pos:
+            if neg:
+                return None
+            return iconst(const)
+        # a constant-first sum written by the code (1 + ι) keeps its constant in front: normalise to atom + const
+        out = pos[0]
+        for k in pos[1:]:
+            out = ('i+', out, k)
+        for k in neg:
+            out = ('i-', out, k)
+        if const > 0:
+            out = ('i+', out, iconst(const))
+        elif const < 0:
+            out = ('i-', out, iconst(-const))
+        return out
+
     def iadd(self, a, b):
         if a[0] == 'ic' and b[0] == 'ic':
             return iconst(a[1] + b[1])
@@ -334,9 +378,9 @@ class Interp:
             return b
         if b[0] == 'ic' and b[1] == 0:
             return a
-        # (x + c1) + c2
-        if b[0] == 'ic' and a[0] == 'i+' and a[2][0] == 'ic':
-            return self.iadd(a[1], iconst(a[2][1] + b[1]))
+        c = self._canon_lin(a, b, 1)
+        if c is not None:
+            return c
         return ('i+', a, b)
 
     def isub(self, a, b):
@@ -346,6 +390,9 @@ class Interp:
             return a
         if a == b:
             return iconst(0)
+        c = self._canon_lin(a, b, -1)
+        if c is not None:
+            return c
         return ('i-', a, b)
 
     # ------------------------------------------------------------ store access
@@ -685,12 +732,29 @@ class Interp:
                     path = path + (('e', idx),)
             elif p == 'cindex':
                 if e['from_end']:
-                    raise Unsupported('constant index from end')
-                idx = iconst(e['offset'])
-                if window is not None:
-                    idx = self.iadd(window[0], idx)
-                    window = None
+                    if window is None:
+                        tgt = self.read(state, root, path)
+                        if not isinstance(tgt, Arr):
+                            raise Unsupported('constant index from end of a non-slice')
+                        idx = iconst(len(tgt.elems) - e['offset'])
+                    else:
+                        idx = self.isub(window[1], iconst(e['offset']))
+                        window = None
+                else:
+                    idx = iconst(e['offset'])
+                    if window is not None:
+                        idx = self.iadd(window[0], idx)
+                        window = None
                 path = path + ((('i', idx[1]) if idx[0] == 'ic' else ('e', idx)),)
+            elif p == 'subslice':
+                if window is None:
+                    tgt = self.read(state, root, path)
+                    if not isinstance(tgt, Arr):
+                        raise Unsupported('subslice of a non-slice')
+                    window = (iconst(0), iconst(len(tgt.elems)), False)
+                a = self.iadd(window[0], iconst(e['from']))
+                b = self.isub(window[1], iconst(e['to'])) if e['from_end'] else self.iadd(window[0], iconst(e['to']))
+                window = (a, b, window[2])
             else:
                 raise Unsupported('place projection %s' % p)
         return root, path, window
@@ -729,6 +793,11 @@ class Interp:
             if 'fn' in op:
                 return FnItem(op['fn'], op['fn']['def']['path'])
             tk = ty['k']
+            if 'param' in op and 'bits' not in op:
+                v = frame.subst.get('const:' + op['param'])
+                if v is None:
+                    raise Unsupported('const generic parameter %s is not bound' % op['param'])
+                return v
             if 'bits' in op:
                 bits = int(op['bits'])
                 if tk == 'float':
@@ -743,6 +812,8 @@ class Interp:
                 return iconst(bits)
             if tk == 'tuple' and not ty['tys']:
                 return Tup(())
+            if 'value' in op:
+                return self.const_tree_value(state, op['value'])
             if 'promoted' in op:
                 return self.eval_promoted(frame, state, op['promoted'])
             if tk == 'ref' and ty['ty']['k'] == 'str':
@@ -755,6 +826,38 @@ class Interp:
                 return Closure(ty['path'], ())
             raise Unsupported('constant %s of type %s' % (op.get('text', op.get('unevaluated', '?')), ty_str(ty)))
         raise Unsupported('operand kind %s' % k)
+
+    def const_tree_value(self, state, tree):
+        """evaluated aggregate constant (extractor `value` tree) -> abstract value"""
+        if 'ref' in tree:
+            v = self.const_tree_value(state, tree['ref'])
+            return Ref(self.alloc(state, v, 'const'), ())
+        if 'bits' in tree:
+            ty = tree['ty']
+            bits = int(tree['bits'])
+            if ty['k'] == 'float':
+                return ('fc', bits)
+            if ty['k'] == 'bool':
+                return TRUE if bits else FALSE
+            if ty['k'] == 'int':
+                size = tree['size'] * 8
+                if bits >= 1 << (size - 1):
+                    bits -= 1 << size
+            return iconst(bits)
+        ty = tree['ty']
+        fields = tuple(self.const_tree_value(state, f) for f in tree['fields'])
+        if ty['k'] == 'array':
+            return Arr(fields)
+        if ty['k'] == 'tuple':
+            return Tup(fields)
+        if ty['k'] == 'adt':
+            local = self.facts.adts.get(ty['path'])
+            if local is not None and local['kind'] != 'Struct':
+                return Enum(ty['path'], ((TRUE, tree.get('variant') or 0, fields),))
+            if ty['path'] in DISCR:
+                return Enum(ty['path'], ((TRUE, tree.get('variant') or 0, fields),))
+            return Struct(ty['path'], fields)
+        raise Unsupported('constant of type %s' % ty_str(ty))
 
     def eval_promoted(self, frame, state, idx):
         body = frame.f['promoted'][idx]
@@ -868,13 +971,20 @@ class Interp:
             raise Unsupported('aggregate %s' % a)
         if r == 'repeat':
             v = self.eval_operand(frame, state, rv['op'])
-            if rv['n'] is None:
+            n = rv['n']
+            if n is None and rv.get('n_param'):
+                c = frame.subst.get('const:' + rv['n_param'])
+                if c is not None and c[0] == 'ic':
+                    n = c[1]
+            if n is None:
                 raise Unsupported('repeat with symbolic length')
-            return Arr(tuple(v for _ in range(rv['n'])))
+            return Arr(tuple(v for _ in range(n)))
         raise Unsupported('rvalue %s: %s' % (r, rv.get('text', '')))
 
     def binop(self, op, a, b, opty):
         k = opty['k']
+        if not isinstance(a, tuple) or not isinstance(b, tuple):
+            raise Unsupported('arithmetic on a value the analysis has no term for (%s, %s)' % (type(a).__name__, type(b).__name__))
         if k == 'float':
             m = {'add': 'f+', 'sub': 'f-', 'mul': 'f*', 'div': 'f/'}
             if op in m:
@@ -1246,13 +1356,22 @@ class Interp:
         self.write(state, root, path, ret)
         return [(t['target'], state)]
 
-    def fn_generic_subst(self, f, args):
+    def fn_generic_subst(self, f, args, frame=None):
+        """bind the callee's type and const generic parameters (declaration order, lifetimes excluded)"""
         names = f['generics']
         m = {}
-        k = 0
-        targs = [a for a in args if a.get('k') != 'const']
-        for n_, a in zip(names, targs):
-            m[n_] = a
+        has_const_names = any(n_.startswith('const:') for n_ in names)
+        seq = args if has_const_names else [a for a in args if a.get('k') != 'const']
+        for n_, a in zip(names, seq):
+            if n_.startswith('const:'):
+                if a.get('k') == 'const':
+                    if 'value' in a:
+                        m[n_] = iconst(a['value'])
+                    elif 'param' in a and frame is not None and ('const:' + a['param']) in frame.subst:
+                        m[n_] = frame.subst['const:' + a['param']]
+            else:
+                if a.get('k') != 'const':
+                    m[n_] = a
         return m
 
     def dispatch_call(self, ctx):
@@ -1268,7 +1387,7 @@ class Interp:
                 f = self.facts.fn_by_idx.get(d['idx'])
                 if f is None:
                     raise Unsupported('no MIR for local function %s' % path)
-                sub = self.fn_generic_subst(f, gargs)
+                sub = self.fn_generic_subst(f, gargs, frame)
                 return self.call_fn(f, ctx.args, ctx, sub)
             m = self.models.get(path)
             if m is None:
@@ -1608,11 +1727,13 @@ class Interp:
         return base + '@loop'
 
     # ------------------------------------------------------------ entry point
-    def analyse_fn(self, f, subst=None, arg_names=None, arg_values=None):
+    def analyse_fn(self, f, subst=None, arg_names=None, arg_values=None, init_facts=None):
         """Analyse function `f` on fully symbolic arguments.  Returns (ret, state, args)."""
         subst = subst or {}
         body = f['body']
         st = State()
+        if init_facts:
+            st.facts = frozenset(init_facts)
         args = []
         for i in range(body['arg_count']):
             loc = body['locals'][i + 1]
